@@ -446,6 +446,9 @@ func (m Model) opsFieldsCx(ops []Op, where string, st *evState, cx *ctxEffects) 
 			st.stack = true
 		case "ctx":
 			st.ctx = string(v.S)
+			if v.Nil {
+				st.ctx = ""
+			}
 		case "reset":
 			out = nil
 			if cx != nil {
@@ -653,8 +656,12 @@ func (m Model) ApplyStep(par *LoggerModel, stp Step, ndest *int) *LoggerModel {
 	case "sample":
 		l.Sampler = &samplerModel{kind: stp.Sampler, n: stp.N}
 	case "output":
-		*ndest++
-		l.Dest = *ndest
+		if stp.N == 1 || stp.N == 2 {
+			l.Dest = -1 // io.Discard / nil: events are processed (hooks, sampler) and written nowhere
+		} else {
+			*ndest++
+			l.Dest = *ndest
+		}
 	}
 	return &l
 }
